@@ -79,6 +79,15 @@ structure Cfg where
       `except ZeroDivisionError: return 0.0` in the three places; the `interval < 0` guards;
       `tot = sum(times)`; `busy = _cpu_tot_time(times)`; first `Process.cpu_percent` call returns 0.0 -/
   shapeOk : Bool
+  /-- what kind of container the four `_last_*` objects are (translator facts `lastDictDefs`,
+      `lastDictOtherUses`, `lastStoreBound`):
+      `none`   — builtin `dict`s (dict displays and `.copy()`s of them) that the module only ever
+                 reads with `.get(tid)` / `[tid]` and writes with `[tid] = …`: every sample ever filed
+                 stays until the same key is written again, however many keys there are;
+      `some n` — a container that holds at most `n` entries: filing a sample under a NEW key while
+                 `n` entries are held first drops the entry that was inserted first (the shape the
+                 theorems refute: `C07_bounded_store_counterexample`) -/
+  storeBound : Option Nat := none
 
 /-- one `scputimes` tuple, seconds, in the order of `scputimes._fields` -/
 abbrev Sample := List Rat
@@ -525,5 +534,122 @@ def pstep (c : Cfg) (tck : Nat) (s : PSt) (p : PCall) : PSt × POut :=
 def prunAll (c : Cfg) (tck : Nat) (s : PSt) : List PCall → PSt
   | [] => s
   | p :: ps => prunAll c tck (pstep c tck s p).1 ps
+
+/-! ## the `_last_*` objects as the containers they are
+
+`St` above is a total function `Fam → Tid → Option Stored`: it can remember a sample for every
+thread identifier there is. The code files the samples in four Python `dict` objects. Below the
+same front ends run over that container — an insertion-ordered association list, one entry per
+key, with the retention policy `Cfg.storeBound` — so that HOW MANY threads have a sample filed at
+the same time (the population of the dictionary) is a dimension of the model, not an assumption
+hidden in the type of `St`. -/
+
+/-- a Python `dict` keyed by thread identifier: the items in insertion order -/
+abbrev PyDict := List (Tid × Stored)
+
+/-- `d.get(t)` / `d[t]` -/
+def PyDict.get : PyDict → Tid → Option Stored
+  | [], _ => none
+  | (k, x) :: r, t => if k = t then some x else PyDict.get r t
+
+/-- `d[t] = v` of a builtin `dict`: an existing key keeps its position and gets the new value, a new
+    key is appended; no other item is touched -/
+def PyDict.setItem : PyDict → Tid → Stored → PyDict
+  | [], t, v => [(t, v)]
+  | (k, x) :: r, t, v => if k = t then (t, v) :: r else (k, x) :: PyDict.setItem r t v
+
+/-- `d[t] = v` of the container the code uses (`bound` = `Cfg.storeBound`) -/
+def PyDict.store (bound : Option Nat) (d : PyDict) (t : Tid) (v : Stored) : PyDict :=
+  match bound with
+  | none => d.setItem t v
+  | some n =>
+    if (d.get t).isSome then d.setItem t v            -- overwriting never makes room
+    else if n ≤ d.length then PyDict.setItem (d.drop 1) t v   -- full: the item inserted first goes
+    else d.setItem t v
+
+/-- the four dictionaries `_last_cpu_times`, `_last_per_cpu_times`, `_last_cpu_times_2`,
+    `_last_per_cpu_times_2` -/
+structure CSt where
+  sys1 : PyDict
+  per1 : PyDict
+  sys2 : PyDict
+  per2 : PyDict
+  deriving Repr
+
+def CSt.init : CSt := ⟨[], [], [], []⟩
+
+/-- the dictionary of a function/variant -/
+def CSt.dict (s : CSt) (f : Fam) : PyDict :=
+  match f.fn, f.percpu with
+  | .percent, false => s.sys1
+  | .percent, true => s.per1
+  | .timesPercent, false => s.sys2
+  | .timesPercent, true => s.per2
+
+def CSt.setDict (s : CSt) (f : Fam) (d : PyDict) : CSt :=
+  match f.fn, f.percpu with
+  | .percent, false => { s with sys1 := d }
+  | .percent, true => { s with per1 := d }
+  | .timesPercent, false => { s with sys2 := d }
+  | .timesPercent, true => { s with per2 := d }
+
+/-- what the dictionaries hold, as the function `St` the first model works with -/
+def CSt.view (s : CSt) : St := fun f t => (s.dict f).get t
+
+/-- `_last_X[t] = v` -/
+def CSt.put (b : Option Nat) (s : CSt) (f : Fam) (t : Tid) (v : Stored) : CSt :=
+  s.setDict f ((s.dict f).store b t v)
+
+/-- `finish` over the container -/
+def cfinish (e : Env) (s : CSt) (c : Call) (t1 : Stored) (data : Bytes) (n : Nat) : CSt × Out :=
+  match sample e c.percpu data with
+  | .error x => (s, .exc x n)
+  | .ok t2 =>
+    let s' := s.put e.cfg.storeBound (slot e.cfg c.fam) c.tid t2
+    match calcStored e c.fn t1 t2 with
+    | .error x => (s', .exc x n)
+    | .ok v => (s', .ok v n)
+
+/-- `step` over the container: one call of `cpu_percent` / `cpu_times_percent` -/
+def cstep (e : Env) (s : CSt) (c : Call) : CSt × Out :=
+  if c.negative then (s, .exc .valueError 0)
+  else
+    let prev : Option Stored :=
+      if c.blocking then none
+      else match (s.dict (slot e.cfg c.fam)).get c.tid with
+        | some v => if v.truthy then some v else none
+        | none => none
+    match prev with
+    | some t1 =>
+      match c.reads with
+      | [] => (s, .starved)
+      | r :: _ => cfinish e s c t1 r 1
+    | none =>
+      match c.reads with
+      | [] => (s, .starved)
+      | r0 :: rest =>
+        match sample e c.percpu r0 with
+        | .error x => (s, .exc x 1)
+        | .ok t1 =>
+          match rest with
+          | [] => (s, .starved)
+          | r1 :: _ => cfinish e s c t1 r1 2
+
+def crunAll (e : Env) (s : CSt) : List Call → CSt
+  | [] => s
+  | c :: cs => crunAll e (cstep e s c).1 cs
+
+/-- the module-level priming code over the container: two dict displays with one item (or `{}`
+    when the read failed) and two `.copy()`s -/
+def cimportState (e : Env) (tid0 : Tid) (r0 r1 : Bytes) : CSt :=
+  let d1 : PyDict :=
+    match sample e false r0 with
+    | .ok v => [(tid0, v)]
+    | .error _ => []
+  let d2 : PyDict :=
+    match sample e true r1 with
+    | .ok v => [(tid0, v)]
+    | .error _ => []
+  ⟨d1, d2, d1, d2⟩
 
 end Psutil.C07
